@@ -328,7 +328,10 @@ static void run_wide(Json& js, vh::Rng& rng, long budget) {
         const double db = (rng.unif() * 2 - 1) * 2000;
         resid(js, "db2pow", rerr(db2pow(db), powl(10.0L, (LD)db / 10)) / (1 + std::fabs(db) / 4));
         resid(js, "db2mag", rerr(db2mag(db), powl(10.0L, (LD)db / 20)) / (1 + std::fabs(db) / 8));
-        resid(js, "db-roundtrip", rerr(pow2db(db2pow(db / 10)), (LD)db / 10) / (16 + std::fabs(db)));
+        // round trip d -> 10^(d/10) -> 10 log10: one rounding of the power (relative eps) comes back as 10/ln(10) eps = 4.3 eps
+        // ABSOLUTE, whatever d is; plus the roundings proportional to |d|.  (Measuring relative to |d| alone raised a false
+        // alarm for |d| < 0.1 in the thorough tier.)
+        resid(js, "db-roundtrip", (double)(fabsl((LD)pow2db(db2pow(db / 10)) - (LD)db / 10) / (EPS * (10 + 2 * std::fabs(db / 10)))));
         resid(js, "deg2rad", rerr(deg2rad(x), (LD)x / 180 * PI_L));
         resid(js, "rad2deg", rerr(rad2deg(x), (LD)x / PI_L * 180));
         resid(js, "deg-roundtrip", rerr(rad2deg(deg2rad(x)), (LD)x));
@@ -382,6 +385,30 @@ static void run_wide(Json& js, vh::Rng& rng, long budget) {
                 resid(js, "stddev", rerr(stddev(v), sqrtl(q / (n - 1))) / (n / 4.0 + 4));
             }
             resid(js, "max", max(v) == *std::max_element(v.begin(), v.end()) && min(v) == *std::min_element(v.begin(), v.end()) ? 0 : 1e9);
+            // data riding on an offset up to 1e7 times its spread (real and complex): the deviation, not the offset, is the result's
+            // scale.  Tolerance: the usual n eps plus the square of the worst-case error of the mean relative to the spread.
+            if (n > 1) {
+                const double ratio = std::pow(10.0, 7 * rng.unif());
+                const double sigma = std::min(base, 1e80), offr = sigma * ratio * (rng.coin() ? 1 : -1), offi = sigma * ratio * rng.gauss();
+                arr_real w(n);
+                arr_cmplx z(n);
+                LD mr = 0, mi = 0;
+                for (int i = 0; i < n; ++i) {
+                    w[i] = offr + sigma * rng.gauss();
+                    z[i] = cmplx_t(w[i], offi + sigma * rng.gauss());
+                    mr += w[i], mi += z[i].im;
+                }
+                mr /= n, mi /= n;
+                LD qr = 0, qz = 0;
+                for (int i = 0; i < n; ++i) {
+                    qr += ((LD)w[i] - mr) * ((LD)w[i] - mr);
+                    qz += ((LD)z[i].re - mr) * ((LD)z[i].re - mr) + ((LD)z[i].im - mi) * ((LD)z[i].im - mi);
+                }
+                const LD sr = sqrtl(qr / (n - 1)), sz = sqrtl(qz / (n - 1));
+                const double cr = (double)(n * EPS * fabsl(mr) / sr), cz = (double)(n * EPS * sqrtl(mr * mr + mi * mi) / sz);
+                resid(js, "stddev-offset", (double)(fabsl((LD)stddev(w) - sr) / sr) / ((n / 4.0 + 4) * EPS + cr * cr));
+                resid(js, "stddev-offset-c", (double)(fabsl((LD)stddev(z) - sz) / sz) / ((n / 4.0 + 4) * EPS + cz * cz));
+            }
         }
     }
 }
